@@ -5,6 +5,8 @@
 //   CONST <eps> <big>
 //   COL <case>.<col> en=<0|1> i=<column> of=<columns> | v1,v2,... = n;min;max;mean;stdev;div_range;mul_range;div_stdev;mul_stdev
 //   SC <case>.<col> mode=<0..3> | <9 stats> | v1,v2,... = s1,s2,... ; u1,u2,...        (scale, then upscale of the scaled)
+//   FSC <case>.<col> mode=<0..3> | <9 stats> | x1,x2,... = s1,... ; u1,...     ALL values of a column with more than 24 entries,
+//                                                                              as 16-hex-digit bit patterns (twin stage of the driver)
 //   AFF <case> fm=<m> tm=<m> | <9 stats>/<9 stats>/... | <9 stats>/... | w11,w12/w21,.. | b1,b2 = w'11,../.. | b'1,..
 //   FAIL <clause> ...      direct property violations found on the implementation (independent of the Coq model)
 //   DONE cases=<n> ...
@@ -350,6 +352,22 @@ std::string hexjoin(const tvec& v)
     return s;
 }
 
+// doubles as 16 hex digits of their bit pattern (compact, exact)
+std::string bitjoin(const std::vector<double>& v)
+{
+    std::string s;
+    s.reserve(v.size() * 17);
+    char buf[24];
+    for (size_t i = 0; i < v.size(); ++i)
+    {
+        uint64_t bits = 0;
+        std::memcpy(&bits, &v[i], sizeof(bits));
+        std::snprintf(buf, sizeof(buf), i ? ",%016llx" : "%016llx", static_cast<unsigned long long>(bits));
+        s += buf;
+    }
+    return s;
+}
+
 std::vector<double> column_of(const tensor2d_t& m, tensor_size_t c)
 {
     std::vector<double> v(static_cast<size_t>(m.rows()));
@@ -379,7 +397,7 @@ struct counters_t
 {
     long cases{0}, columns{0}, values{0}, fails{0}, col_lines{0}, sc_lines{0}, aff_lines{0}, pred_rows{0}, rt_values{0},
         missing_values{0}, categorical_columns{0}, constant_columns{0}, single_columns{0}, empty_columns{0},
-        guard_range_columns{0}, guard_stdev_columns{0}, meta_columns{0}, corpus_cases{0};
+        guard_range_columns{0}, guard_stdev_columns{0}, meta_columns{0}, corpus_cases{0}, fsc_lines{0}, fsc_values{0};
     std::map<int, int> kinds, patterns, rows_hist, target_kinds;
 };
 
@@ -526,8 +544,11 @@ void check_column_scaling(const std::string& id, int mode, const std::vector<dou
             }
             continue;
         }
-        // round trip: 5 roundings relative to |x - off| and one relative to |x|
-        const ld tol = 8 * U * (std::fabs(static_cast<ld>(x)) + std::fabs(static_cast<ld>(off))) + 1e-300L;
+        // round trip: the bound PROVED in Coq (C14_fl_roundtrip, coq/theories/C14_Float.v) for the binary64 twin of this code:
+        // (5|x| + 4|off|) u (1 + 3u) + 2^-1074 (mul + 1); it replaces the empirical 8u(|x| + |off|) + 1e-300 and is smaller
+        const ld mul = mul_of(st, mode, c);
+        const ld tol = (5 * std::fabs(static_cast<ld>(x)) + 4 * std::fabs(static_cast<ld>(off))) * (static_cast<ld>(U) * (1 + 3 * static_cast<ld>(U))) +
+                       0x1p-1074L * (mul + 1);
         if (!(std::fabs(static_cast<ld>(upscaled[i]) - x) <= tol))
         {
             fail("roundtrip", id, "upscale(scale(x)) != x" + dsc(i));
@@ -540,12 +561,14 @@ void check_column_scaling(const std::string& id, int mode, const std::vector<dou
     }
     const ld meantol = 2 * (N + 2) * U * colabs / static_cast<ld>(N); // rounding of the mean
     const ld range   = static_cast<ld>(st.m_max(c)) - st.m_min(c);
+    const double frange = st.m_max(c) - st.m_min(c); // the binary64 range done() compares with the guard
     if (mode == 2)
     {
         for (size_t i = 0; i < col.size(); ++i)
         {
             if (!std::isfinite(col[i])) continue;
-            if (!(scaled[i] >= 0.0 && scaled[i] <= 1.0 + 4 * U))
+            // PROVED (C14_fl_minmax): every value of [min, max] is mapped INTO [0, 1], no rounding slack
+            if (!(scaled[i] >= 0.0 && scaled[i] <= 1.0))
             {
                 fail("minmax-range", id, "min-max scaled value outside [0, 1]" + dsc(i));
                 return;
@@ -555,7 +578,8 @@ void check_column_scaling(const std::string& id, int mode, const std::vector<dou
                 fail("minmax-range", id, "the minimum is not scaled to 0" + dsc(i));
                 return;
             }
-            if (N > 1 && col[i] == st.m_max(c) && range >= eps && std::fabs(scaled[i] - 1.0) > 4 * U)
+            // PROVED (C14_fl_minmax): the maximum is mapped to 1 - u or 1 unless the range is below the guard
+            if (N > 1 && col[i] == st.m_max(c) && frange >= eps && !(scaled[i] >= 1.0 - U && scaled[i] <= 1.0))
             {
                 fail("minmax-range", id, "the maximum is not scaled to 1" + dsc(i));
                 return;
@@ -880,6 +904,20 @@ void exec_case(gen_t& g, long icase, bool thorough, double eps, const case_t& c,
                 std::printf("SC %s mode=%d | %s | %s = %s ; %s\n", id.c_str(), mode, stats_str(st, col).c_str(), hexjoin(pv).c_str(),
                             hexjoin(ps).c_str(), hexjoin(pu).c_str());
                 cnt.sc_lines++;
+                // extension: ALL values of a longer column as bit patterns, for the bit-for-bit comparison with the PrimFloat twin
+                // and the proved bounds (the SC line above lists at most 24)
+                if (v.size() > pick.size())
+                {
+                    std::string line = "FSC " + id + " mode=" + std::to_string(mode) + " | " + stats_str(st, col) + " | ";
+                    line += bitjoin(v);
+                    line += " = ";
+                    line += bitjoin(s);
+                    line += " ; ";
+                    line += bitjoin(u);
+                    std::puts(line.c_str());
+                    cnt.fsc_lines++;
+                    cnt.fsc_values += static_cast<long>(v.size());
+                }
             }
         };
         run(raw, fstats, "f", [&](tensor_size_t col) { return enabled[static_cast<size_t>(col)] != 0U; }, false);
@@ -1110,10 +1148,10 @@ int main(int argc, char** argv)
     };
     std::printf("DONE corpus_cases=%ld cases=%ld columns=%ld values=%ld fails=%ld col_lines=%ld sc_lines=%ld aff_lines=%ld pred_rows=%ld rt_values=%ld "
                 "missing_values=%ld categorical_columns=%ld constant_columns=%ld single_columns=%ld empty_columns=%ld "
-                "guard_range_columns=%ld guard_stdev_columns=%ld meta_columns=%ld kinds=%s patterns=%s rows=%s targets=%s\n",
+                "guard_range_columns=%ld guard_stdev_columns=%ld meta_columns=%ld fsc_lines=%ld fsc_values=%ld kinds=%s patterns=%s rows=%s targets=%s\n",
                 cnt.corpus_cases, cnt.cases, cnt.columns, cnt.values, cnt.fails, cnt.col_lines, cnt.sc_lines, cnt.aff_lines, cnt.pred_rows,
                 cnt.rt_values, cnt.missing_values, cnt.categorical_columns, cnt.constant_columns, cnt.single_columns,
-                cnt.empty_columns, cnt.guard_range_columns, cnt.guard_stdev_columns, cnt.meta_columns, hist(cnt.kinds).c_str(),
+                cnt.empty_columns, cnt.guard_range_columns, cnt.guard_stdev_columns, cnt.meta_columns, cnt.fsc_lines, cnt.fsc_values, hist(cnt.kinds).c_str(),
                 hist(cnt.patterns).c_str(), hist(cnt.rows_hist).c_str(), hist(cnt.target_kinds).c_str());
     return 0;
 }
